@@ -1623,6 +1623,56 @@ class Executor:
             return SSeq(ix.length, lambda q: af((ix.fn(q),)), a.kind)
         if len(idx) == 1 and isinstance(idx[0], tuple):
             idx = idx[0]
+        if len(idx) == a.ndim and a.ndim >= 2 and all(isinstance(k, SArr) and k.kind == 'int'
+                                                       for k in idx):
+            # a[Y, X] with integer index arrays of one common shape (np.mgrid coordinates): the
+            # array shaped like the indices whose element q is a[Y[q], X[q]]
+            fs = [snap(k) for k in idx]
+            shp = idx[0].shape
+            if any(len(k.shape) != len(shp) for k in idx):
+                raise Unsupported('index arrays of different rank')
+            q = tuple(fresh('fi', 'int') for _ in shp)
+            guard = z3.And(*[z3.And(x >= 0, x < num_term(d)) for x, d in zip(q, shp)])
+            if st is not None:
+                for k in idx[1:]:
+                    st.check('index arrays have one shape',
+                             z3.And(*[num_term(x) == num_term(y) for x, y in zip(k.shape, shp)]))
+                st.check('fancy index within bounds', z3.Implies(guard, z3.And(*[
+                    z3.And(num_term(f(q)) >= 0, num_term(f(q)) < num_term(n))
+                    for f, n in zip(fs, a.shape)])))
+            af = snap(a)
+            out = SArr(shp, lambda p, af=af, fs=fs: af(tuple(num_term(f(p)) for f in fs)), a.kind)
+            fin = snap_finite(a)
+            if fin is not None:
+                out.finite = lambda p, fin=fin, fs=fs: fin(tuple(num_term(f(p)) for f in fs))
+            return out
+        if len(idx) == a.ndim and a.ndim >= 2 and all(isinstance(k, SBag) and k.kind == 'int'
+                                                       for k in idx):
+            # a[yy, xx] with coordinate bags selected by one mask: the bag of a at those pixels
+            b0 = idx[0]
+            mid = getattr(b0, 'mask_id', None)
+            for k in idx[1:]:
+                both_all = getattr(k, 'all_selected', False) and getattr(b0, 'all_selected', False)
+                if len(k.shape) != len(b0.shape) or (not both_all and (
+                        getattr(k, 'mask_id', None) != mid or (mid is None and k.pred is not b0.pred))):
+                    raise Unsupported('coordinate bags selected by different masks')
+                if st is not None:
+                    st.check('index bags have one shape', z3.And(*[
+                        num_term(x) == num_term(y) for x, y in zip(k.shape, b0.shape)]))
+            q = tuple(fresh('fi', 'int') for _ in b0.shape)
+            guard = z3.And(*[z3.And(x >= 0, x < num_term(d)) for x, d in zip(q, b0.shape)])
+            if st is not None:
+                st.check('fancy index within bounds',
+                         z3.Implies(z3.And(guard, to_bool(b0.pred(q))), z3.And(*[
+                             z3.And(num_term(k.val(q)) >= 0, num_term(k.val(q)) < num_term(n))
+                             for k, n in zip(idx, a.shape)])))
+            af = snap(a)
+            vals = [k.val for k in idx]
+            out = _bag_like(b0, lambda p, af=af, vals=vals: af(tuple(num_term(v(p)) for v in vals)),
+                            a.kind)
+            if getattr(b0, 'all_selected', False):
+                out.all_selected = True
+            return out
         if len(idx) > a.ndim:
             raise Unsupported('too many indices')
         if len(idx) == 1 and a.ndim == 1 and isinstance(idx[0], SSlice) \
@@ -2001,7 +2051,7 @@ class Executor:
             return [(st, prims.arr_method(self, fv[1], fv[2], args, kwargs, st))]
         if isinstance(fv, tuple) and fv and fv[0] == 'bound':
             _, obj, meth = fv
-            c = self.registry.lookup_method(obj.cls, meth, args=list(args))
+            c = self.registry.lookup_method(obj.cls, meth, args=list(args), kwargs=kwargs)
             if c.kind == 'staticmethod':
                 return self.apply_contract(c, list(args), kwargs, st)
             return self.apply_contract(c, [obj] + list(args), kwargs, st)
@@ -2021,10 +2071,28 @@ class Executor:
                     and isinstance(r[0][0], (State, tuple)):
                 return r
             return [(st, r)]
-        c = self.registry.lookup_callable(name, self.cur_class)
+        real = self._import_alias(name)
+        c = None
+        if real is not None:
+            c = self.registry.lookup_callable(real, self.cur_class)
+        if c is None:
+            c = self.registry.lookup_callable(name, self.cur_class)
         if c is not None:
             return self.apply_contract(c, args, kwargs, st)
         raise Unsupported(f'call to {name!r} (no primitive and no contract)')
+
+    def _import_alias(self, name):
+        """`from photutils.x import real as name` at the top of the module under verification:
+        the call goes to the contract of `real` (an alias never changes which function runs)."""
+        tree = getattr(self.registry, 'current_tree', None)
+        if tree is None or '.' in name:
+            return None
+        for n in tree.body:
+            if isinstance(n, ast.ImportFrom) and (n.module or '').startswith('photutils'):
+                for a in n.names:
+                    if a.asname == name and a.name != name:
+                        return a.name
+        return None
 
     def _find_method_def(self, cls, name, want_property=False):
         tree = getattr(self.registry, 'current_tree', None)
